@@ -283,9 +283,11 @@ def _cfg_manager(tier):
                 if cls in ("DensityBasedSplitBudgetManager", "RandomVariableUncertaintyBudgetManager") \
                         and pre == "arbitrary" and tier == "quick":
                     continue  # chunk invariance not claimed for these; acceptance is checked from fresh objects
-                top = 3 if tier == "quick" else (4 if cls == "SplitBudgetManager" else 5)
+                top = 3 if tier == "quick" else (4 if cls in ("SplitBudgetManager", "RandomVariableUncertaintyBudgetManager") else 5)
                 if cls == "DensityBasedSplitBudgetManager" and w != ws[0]:
                     continue
+                if cls == "DensityBasedSplitBudgetManager" and pre == "arbitrary":
+                    top = 3     # nonlinear (u/t against a symbolic budget from a symbolic state): n >= 4 needs ~50 min per configuration
                 for n in range(2, top + 1):
                     out.append(dict(cls=cls, w=w, n=n, pre=pre))
     return out
